@@ -51,6 +51,11 @@ func drawVerbs(t *rapid.T) *pbt.Case {
 		wp += "." + fmt.Sprint(rapid.IntRange(0, 40).Draw(t, "prec"))
 	}
 	verb := rapid.SampledFrom(verbs).Draw(t, "verb")
+	// '+' combined with v means "verbose" (the verbose-structure part);
+	// with every other verb it is an ordinary fmt flag.
+	if verb != "v" && rapid.IntRange(0, 3).Draw(t, "flag+") == 0 {
+		flags = "+" + flags
+	}
 	c.SetStr("format", "%"+flags+wp+verb)
 	return c
 }
